@@ -4,7 +4,7 @@ Decision:
 * Lean: `SimProofs.sim_eq_sem` (the simulator model's strict path enumeration equals `Polar.run`,
   weight by weight and store by store, for every program — assignment / choice / discrete draws /
   guarded assignment / if-else / simultaneous assignment via temporaries / guard with stuttering),
-  sampler theorems (`sampler_params_agree`, TruncNormal counterexample and characterisation).
+  sampler theorems (`sampler_params_agree`, `sampler_support_agree` for every family, `truncnormal_support`).
 * Correspondence (model <-> code): the REAL `Simulator(n).simulate` is run with `random.choices`,
   `random.choice` and every `scipy.stats.*.rvs` scripted; every path of generated discrete programs is
   enumerated with its probability; tapes, weights and final states must equal `sim_paths` of the model.
@@ -354,15 +354,11 @@ def run_samplers(chk, nsamples, timeout):
                        "numeric_params": [H.fr_str(_subst_param(p)) for p in ps], "detail": det,
                        "how": "harness.tasks.c12:sampler_probe(family, params, state): scripted rvs captures the "
                               "scipy arguments; real scipy with numpy seed for the support test"}
-                fid = attribute(PROP, rec)
-                if fid:
-                    chk.known(fid[0], fid[1])
-                else:
-                    what = (f"{fam}({', '.join(ps)}).sample passes {det.get('captured')} but the documented "
-                            f"parameterisation is {det.get('spec')}") if kind == "spec" else \
-                           (f"{fam}({', '.join(ps)}).sample: {det['n_outside']} of {det['nsamples']} samples outside the "
-                            f"declared support {det['declared']}, e.g. {det['first_outside'][:1]}")
-                    chk.violation(what, rec)
+                what = (f"{fam}({', '.join(ps)}).sample passes {det.get('captured')} but the documented "
+                        f"parameterisation is {det.get('spec')}") if kind == "spec" else \
+                       (f"{fam}({', '.join(ps)}).sample: {det['n_outside']} of {det['nsamples']} samples outside the "
+                        f"declared support {det['declared']}, e.g. {det['first_outside'][:1]}")
+                chk.violation(what, rec)
             else:
                 chk.nontrivial.add(f"sampler:{fam}:{','.join(ps)}:{kind}")
     chk.obligation("correspondence:sampler-calls(model=code)", n_model_bad == 0 and n_model_ok > 0,
@@ -443,12 +439,8 @@ def run_cli(chk, recs, limit, timeout):
                    "all_expected": [x["expected"] for x in g],
                    "how": "harness.tasks.c12:cli_simulation(text, goals, n, samples): SimulationAction with every random "
                           "source answering its first option; `expected` is the goal on that run's final state"}
-            fid = attribute(PROP, rec)
-            if fid:
-                chk.known(fid[0], fid[1])
-            else:
-                chk.violation(f"simulation action prints {label} = {printed}, the run's value is {goal['expected']} "
-                              f"[{c['id']}, goal {goal['text']}]", rec)
+            chk.violation(f"simulation action prints {label} = {printed}, the run's value is {goal['expected']} "
+                          f"[{c['id']}, goal {goal['text']}]", rec)
     chk.coverage["cli_goals_checked"] = n_ok + n_bad
 
 
